@@ -22,7 +22,7 @@
 From Coq Require Import List NArith.
 From Dials Require Import Base.Outcome Reflect.Ty Reflect.Heap Copy.DeepCopy Copy.DeepCopySpec
   Copy.DeepCopyInv Copy.DeepCopyTerm Copy.DeepCopyBisim Copy.DeepCopySharing Copy.DeepCopyTotal Copy.DeepCopyFacts
-  Copy.DeepCopyGuard Stack.ComposeH Stack.History Stack.ConfigGraphs.
+  Copy.DeepCopyGuard Copy.PtrifyWalk Copy.PtrifyWalkProofs Stack.ComposeH Stack.History Stack.ConfigGraphs.
 Import ListNotations.
 Open Scope N_scope.
 
@@ -117,7 +117,7 @@ Proof. exact deep_copy_guard_l. Qed.
    n1 = c_next st1 addresses (the allocator position the entry copy left) the
    whole call returns a config bisimilar to the caller's defaults, allocated by
    the call, the caller's heap untouched.  (ptrify.Pointerify's walk over the
-   template's interface payloads: Ptrify/PtrifyWalk - see notes.) *)
+   template's interface payloads: pointerify_walk_terminates below.) *)
 Theorem config_on_graphs : forall fuel fs h n0 R D rk defaults,
   c03_guard_total h n0 R D rk (HPtr (Some defaults)) = true ->
   (copy_fuel n0 R D <= fuel)%nat ->
@@ -131,6 +131,19 @@ Theorem config_on_graphs : forall fuel fs h n0 R D rk defaults,
        (forall a o, hget h a = Some o -> hget H a = Some o)).
 Proof. exact config_on_graphs_b. Qed.
 
+(* ptrify.Pointerify's walk over the template value (Copy/PtrifyWalk.v: the
+   repaired code, with the set of interface-held pointers on the current path)
+   terminates on every finite closed heap in which no cycle runs through typed
+   pointer-to-struct fields alone (decidable guard wf_prankb; such a cycle
+   needs a Go type that reaches itself: finding 15), with the explicit bound
+   pwalk_fuel n0 P D = (n0+1)(P+1)(D+1).  Before the fix it does not
+   (Copy/PtrifyWalkProofs.v: c03_pointerify_unfixed_refuted, n.Any = n). *)
+Theorem pointerify_walk_terminates : forall h n0 P D prk v fuel,
+  wf_heapb h n0 = true -> wf_prankb h P D prk = true -> pwalk_root_ok n0 P D prk v = true ->
+  (pwalk_fuel n0 P D <= fuel)%nat ->
+  pwalk false fuel h [] v <> OutOfFuel.
+Proof. exact pointerify_walk_terminates_l. Qed.
+
 Print Assumptions deep_copy_terminates.
 Print Assumptions deep_copy_succeeds.
 Print Assumptions deep_copy_expands_once.
@@ -140,3 +153,4 @@ Print Assumptions deep_copy_fresh.
 Print Assumptions config_on_graphs_partial.
 Print Assumptions deep_copy_guard_preserved.
 Print Assumptions config_on_graphs.
+Print Assumptions pointerify_walk_terminates.
